@@ -7,7 +7,7 @@
    shape -- a statement about 17 numerical programs, explored by props/c03.py over the product of
    documented option values, with an exact-rational PSD certificate per fitted model. *)
 From Coq Require Import List Reals.
-From ML Require Import Ops Vec VecR MatR PSD Cert Hom Mahalanobis Validate C01Proof C02Proof C06Proof.
+From ML Require Import Ops Vec VecR MatR PSD Cert Hom Mahalanobis Validate NPFacts C02Shape C06Proof.
 From MLgen Require Import Src_query.
 Import ListNotations.
 Open Scope R_scope.
@@ -27,7 +27,7 @@ Definition C03_proved_part : Prop :=
 Theorem C03_partial : C03_proved_part.
 Proof.
   split.
-  - intros k d L HL. destruct (C02_proof k d L HL) as [_ [_ [_ [_ [_ [_ [H7 [H8 [H9 [H10 _]]]]]]]]]].
+  - intros k d L HL. destruct (C02_shape k d L HL) as [_ [H7 [H8 [H9 H10]]]].
     auto.
   - split; [exact n_components_spec | exact cert_pd_sound].
 Qed.
